@@ -3,6 +3,15 @@
 import json
 
 CLAIMED = {
+ "C17": dict(
+   text="Partial by nature (a container does not exist in a mathematical model). Proved in Coq about the translated __call__ (gen_call): the aggregate score is the weighted average of the per-observation scores, "
+        "raises iff score_per_obs raises, is unchanged by rescaling all weights, unit weights = plain mean, and vector calls are the per-observation function applied element-wise. "
+        "Container/dtype independence of scores, identification values, decompositions, bias and marginal tables and isotonic fits is decided by correspondence: the same numbers as list, tuple, int64/float64 ndarray, "
+        "polars Series (float and int) and mixed int/float list through every public function, compared with the float64-ndarray result (1e-12). One defect was repaired (fix 074046b), two are recorded as known findings.",
+   note="The decisive evidence for the first sentence of the property is the correspondence run, not a theorem (stated in DESIGN.md section 4 C17). pandas / pyarrow containers are not installed and not covered. "
+        "KNOWN findings (known_findings.json): mixed int/float Python lists raise TypeError at two polars construction sites; integer-dtype features are binned differently by numpy's histogram rules.",
+   technique="Coq proof about translated __call__ + container correspondence harness (7 container kinds x public API)", ref="4 C17"),
+
  "C12": dict(
    text="Machine-checked proof (Coq) about the executable model of isotonic_regression for all four functionals, all levels, both directions, with NO hypothesis beyond 'the call returned a result': "
         "the full block contract (length, range within data, r from 0 to n strictly increasing, constant inside and different across blocks; r is determined by the values), monotone fit, "
